@@ -63,6 +63,14 @@ def run_check(pid, tier, seed):
         print(f"HARNESS-ERROR {pid}: {out['harness_error']}", flush=True)
         return 2
     violations = out["violations"]
+    dump = os.environ.get("VERIF_DUMP")
+    if dump:
+        with open(dump, "w") as f:
+            for v in violations:
+                f.write(json.dumps({"key": v["key"], "what": v["what"],
+                                    "input": v.get("input"),
+                                    "observed": v.get("observed")},
+                                   default=str) + "\n")
     unknown, matched = findings.classify(pid, violations)
     cov = out["coverage"]
     cov["known_findings_matched"] = {k: len(v[1]) for k, v in matched.items()}
